@@ -92,6 +92,9 @@ var initFnsTxt string
 //go:embed extra_edges.txt
 var extraEdgesTxt string
 
+//go:embed callers_of.txt
+var callersOfTxt string
+
 func readList(txt string) []string {
 	var r []string
 	for _, l := range strings.Split(txt, "\n") {
@@ -115,7 +118,9 @@ const syncCalleesDoc = "walletdb.View walletdb.Update walletdb.*.ForEach walletd
 	"container/heap and sort.Sort/Stable call Len/Less/Swap/Push/Pop of their argument; " +
 	"fn_requires leaves out the method calls on the fresh object in a constructor; " +
 	"shared locals (local:<fn>:<x>: captured by a goroutine literal, or a map / slice handed to a go statement): a_fresh = before this instance is published; " +
-	"a goroutine handed a map / slice is assumed to read it (ctx goarg<n>), its writes through the alias are not seen"
+	"a goroutine handed a map / slice is assumed to read it (ctx goarg<n>), its writes through the alias are not seen; " +
+	"path variables <pkg.S.f>->g: the field g selected directly through the pointer field f of a checkout struct S (->*: the whole pointee assigned), " +
+	"same kind as the access of g; pointers held in locals / parameters and pointer elements of maps / slices are not followed"
 
 // ---------------------------------------------------------------- locksets
 
@@ -297,8 +302,9 @@ type fnode struct {
 	goTarget      bool
 	chaTarget     bool
 	sites         []callsite // direct static call sites
-	private       bool       // method of a private type
-	initFn        bool       // listed in init_fns.txt: runs before the object is published
+	uses          map[string]bool
+	private       bool // method of a private type
+	initFn        bool // listed in init_fns.txt: runs before the object is published
 	ctor          bool
 	ctorByCallers bool
 	closure       *closureRT // literal bound to a local that is only called
@@ -318,6 +324,15 @@ func (a *analysis) nodeByName(name string) *fnode {
 	return nil
 }
 
+// use: records how a function is used (callers_of): "call:", "icall:",
+// "go:", "ref:", "edge:" + the using function node
+func (n *fnode) use(kind string, by *fnode) {
+	if n.uses == nil {
+		n.uses = map[string]bool{}
+	}
+	n.uses[kind+":"+by.display()] = true
+}
+
 func (n *fnode) display() string {
 	if n.ctx == "" {
 		return n.name
@@ -332,6 +347,7 @@ type vinfo struct {
 	pkgVar                        bool
 	opaque                        bool // the type of the variable is an opaque container type of the checkout
 	writes, atomics, calls, sites int
+	pathw                         int // KWrite / KAddr / KAtomicW / KCall sites whose base object is not fresh
 }
 
 // sharedVar: a local variable or parameter that a goroutine started by its
@@ -1509,13 +1525,95 @@ func (w *walker) site(v *types.Var, kind, m string, pos token.Pos, base ast.Expr
 	})
 }
 
+// ptrField: v is a pointer-to-struct field of a struct type of the checkout
+// (not a sync type): the fields selected through it are path variables
+func (w *walker) ptrField(v *types.Var) string {
+	if v == nil || !v.IsField() {
+		return ""
+	}
+	p, ok := types.Unalias(v.Type()).Underlying().(*types.Pointer)
+	if !ok {
+		return ""
+	}
+	if _, ok := p.Elem().Underlying().(*types.Struct); !ok {
+		return ""
+	}
+	if n := namedOf(p.Elem()); n != nil && isSyncPkg(pkgPathOf(n)) {
+		return ""
+	}
+	return w.a.varName(v)
+}
+
+// predField: the field whose value the expression base denotes (X.f, (*X.f))
+func (w *walker) predField(base ast.Expr) *types.Var {
+	if base == nil {
+		return nil
+	}
+	e := unparen(base)
+	if st, ok := e.(*ast.StarExpr); ok {
+		e = unparen(st.X)
+	}
+	if _, ok := e.(*ast.SelectorExpr); !ok {
+		return nil
+	}
+	if _, vs, ok := w.chain(e); ok && vs[len(vs)-1].IsField() {
+		return vs[len(vs)-1]
+	}
+	return nil
+}
+
+// siteAt: the site of the i-th field of a selection path and, if that field
+// is selected directly through a pointer field f of a checkout struct, the
+// same access of the path variable "<f>->g"
+func (w *walker) siteAt(base ast.Expr, vs []*types.Var, i int, kind, m string, pos token.Pos) {
+	w.site(vs[i], kind, m, pos, base)
+	var pred *types.Var
+	if i > 0 {
+		pred = vs[i-1]
+	} else {
+		pred = w.predField(base)
+	}
+	if pn := w.ptrField(pred); pn != "" {
+		w.pathSite(pn+"->"+vs[i].Name(), vs[i].Type(), kind, m, pos, base)
+	}
+}
+
+// pathSite: an access of the field g behind the pointer field f, as an
+// access of the path variable "<pkg.S.f>->g" ("->*": the whole pointee)
+func (w *walker) pathSite(name string, t types.Type, kind, m string, pos token.Pos, base ast.Expr) {
+	if !w.record || w.di.opaque {
+		return
+	}
+	if t != nil {
+		if cl, _ := w.a.classOf(t); cl == "sync" && (kind == "KRead" || kind == "KAddr" || kind == "KCall") {
+			return
+		}
+	}
+	if w.a.vars[name] == nil {
+		w.a.vars[name] = &vinfo{name: name, class: "path"}
+	}
+	preGo := true
+	for _, g := range w.di.goPos {
+		if g < pos {
+			preGo = false
+			break
+		}
+	}
+	p := w.fset.Position(pos)
+	w.a.raw = append(w.a.raw, rawSite{
+		v: name, node: w.node, kind: kind, m: m, locks: w.cur.clone(),
+		root: w.rootObj(base), preGo: preGo,
+		file: w.di.file, line: p.Line,
+	})
+}
+
 // access: the holders are read, the selected variable gets the given kind
 func (w *walker) access(base ast.Expr, vs []*types.Var, kind, m string, pos token.Pos) {
-	for _, h := range vs[:len(vs)-1] {
-		w.site(h, "KRead", "", pos, base)
+	for i := range vs[:len(vs)-1] {
+		w.siteAt(base, vs, i, "KRead", "", pos)
 	}
 	if kind != "" {
-		w.site(vs[len(vs)-1], kind, m, pos, base)
+		w.siteAt(base, vs, len(vs)-1, kind, m, pos)
 	}
 	if base != nil {
 		w.expr(base)
@@ -1530,18 +1628,18 @@ func (w *walker) written(e ast.Expr) {
 	}
 	if base, vs, ok := w.chain(e); ok {
 		n := len(vs)
-		w.site(vs[n-1], "KWrite", "", e.Pos(), base)
+		w.siteAt(base, vs, n-1, "KWrite", "", e.Pos())
 		i := n - 2
 		for ; i >= 0; i-- {
 			if isStructValue(vs[i].Type()) {
-				w.site(vs[i], "KWrite", "", e.Pos(), base)
+				w.siteAt(base, vs, i, "KWrite", "", e.Pos())
 			} else {
 				break
 			}
 		}
 		if i >= 0 {
 			for j := 0; j <= i; j++ {
-				w.site(vs[j], "KRead", "", e.Pos(), base)
+				w.siteAt(base, vs, j, "KRead", "", e.Pos())
 			}
 			w.expr(base)
 			return
@@ -1589,6 +1687,12 @@ func (w *walker) written(e ast.Expr) {
 			w.expr(x.X)
 		}
 	case *ast.StarExpr:
+		// *X.f = v overwrites every field behind the pointer field f
+		if pn := w.ptrField(w.predField(x.X)); pn != "" {
+			if b, _, ok := w.chain(x.X); ok {
+				w.pathSite(pn+"->*", nil, "KWrite", "", e.Pos(), b)
+			}
+		}
 		w.expr(x.X)
 	default:
 		w.expr(e)
@@ -1719,6 +1823,7 @@ func (w *walker) valueRef(fn *types.Func, recvT types.Type) {
 	}
 	for _, t := range w.targets(fn, recvT) {
 		t.valueUsed = true
+		t.use("ref", w.node)
 	}
 }
 
@@ -1769,6 +1874,14 @@ func (w *walker) link(fn *types.Func, recvT types.Type, how int, recv ast.Expr, 
 	cha := isInterfaceMethod(fn.Origin())
 	ts := w.targets(fn, recvT)
 	for _, t := range ts {
+		switch {
+		case how == callGo:
+			t.use("go", w.node)
+		case cha:
+			t.use("icall", w.node)
+		default:
+			t.use("call", w.node)
+		}
 		switch how {
 		case callGo:
 			t.goTarget = true
@@ -3437,6 +3550,7 @@ func main() {
 				}
 				seen[k] = true
 				extraEdges = append(extraEdges, k)
+				c.use("edge", caller)
 				caller.callees[c] = true
 				c.sites = append(c.sites, callsite{caller, lockset{}, nil, len(caller.di.goPos) == 0})
 			}
@@ -3447,6 +3561,25 @@ func main() {
 			}
 			return extraEdges[i][1] < extraEdges[j][1]
 		})
+	}
+
+	// ---- callers_of.txt
+	type usesOf struct {
+		name string
+		uses []string
+	}
+	var callersOf []usesOf
+	for _, f := range readList(callersOfTxt) {
+		n := a.nodeByName(f)
+		if n == nil {
+			fatal("callers_of.txt: no function %s in the checkout", f)
+		}
+		u := usesOf{name: f}
+		for k := range n.uses {
+			u.uses = append(u.uses, k)
+		}
+		sort.Strings(u.uses)
+		callersOf = append(callersOf, u)
 	}
 
 	// ---- constructors by callers: least fixpoint from the name rule
@@ -3844,6 +3977,15 @@ func main() {
 		case "KCall":
 			vi.calls++
 		}
+		switch k.rs.kind {
+		case "KWrite", "KAddr", "KAtomicW", "KCall":
+			// (path variables) a_ctor does not excuse the site: what is
+			// behind a pointer field need not belong to the object under
+			// construction; only a fresh base object does
+			if !k.rs.fresh {
+				vi.pathw++
+			}
+		}
 	}
 	extra := map[string]bool{}
 	for _, l := range strings.Split(extraVarsTxt, "\n") {
@@ -3861,6 +4003,14 @@ func main() {
 	var varNames []string
 	for name, vi := range a.vars {
 		varNames = append(varNames, name)
+		if vi.class == "path" {
+			// a field behind a pointer field: interesting iff mutated
+			// through an object that is not fresh
+			if vi.pathw > 0 || extra[name] {
+				interesting[name] = true
+			}
+			continue
+		}
 		if vi.writes > 0 || vi.atomics > 0 || (vi.calls > 0 && (mutableExt(vi.extPkg) || vi.opaque)) || extra[name] {
 			interesting[name] = true
 		}
@@ -3981,6 +4131,10 @@ func main() {
 		for _, c := range initFnCalls {
 			fmt.Println(c[0], c[1], c[2])
 		}
+		fmt.Println("---- callers_of")
+		for _, c := range callersOf {
+			fmt.Println(c.name, strings.Join(c.uses, " "))
+		}
 		fmt.Println("---- extra edges (extra_edges.txt, expanded)")
 		for _, e := range extraEdges {
 			fmt.Println(e[0], "->", e[1])
@@ -4040,14 +4194,22 @@ func main() {
 	fmt.Fprintln(o, "From Verif Require Import C18.AccessTypes.")
 	fmt.Fprintln(o, "Import ListNotations.")
 	fmt.Fprintln(o, "Open Scope string_scope.")
-	nsharedInt := 0
-	for name := range interesting {
-		if a.vars[name].class == "local" {
-			nsharedInt++
+	nsharedInt, npath, npathInt := 0, 0, 0
+	for name, vi := range a.vars {
+		if vi.class == "path" {
+			npath++
+		}
+		if interesting[name] {
+			switch vi.class {
+			case "local":
+				nsharedInt++
+			case "path":
+				npathInt++
+			}
 		}
 	}
-	fmt.Fprintf(o, "(* %d packages, %d functions, %d literals, %d variables (%d of them shared locals, %d interesting), %d interesting, %d sites, %d unresolved calls; synchronous higher-order callees: %s *)\n",
-		a.npkgs, nfuncs, a.nlits, len(varNames), a.nshared, nsharedInt, len(interesting), len(emit), len(unres), syncCalleesDoc)
+	fmt.Fprintf(o, "(* %d packages, %d functions, %d literals, %d variables (%d of them shared locals, %d interesting; %d path variables, %d interesting), %d interesting, %d sites, %d unresolved calls; synchronous higher-order callees: %s *)\n",
+		a.npkgs, nfuncs, a.nlits, len(varNames), a.nshared, nsharedInt, npath, npathInt, len(interesting), len(emit), len(unres), syncCalleesDoc)
 	var items []string
 	for _, k := range emit {
 		items = append(items, k.line)
@@ -4104,6 +4266,12 @@ func main() {
 		items = append(items, fmt.Sprintf("(%s, %s)", coqStr(e[0]), coqStr(e[1])))
 	}
 	list("extra_edges", "list (string * string)", items)
+	fmt.Fprintln(o, "(* callers_of.txt: every use of these functions in the checkout: call: / icall: (interface dispatch that can reach it) / go: / ref: (used as a value) / edge: (extra_edges.txt) + the using function[/ctx] *)")
+	items = nil
+	for _, c := range callersOf {
+		items = append(items, fmt.Sprintf("(%s, %s)", coqStr(c.name), coqStrList(c.uses)))
+	}
+	list("callers_of", "list (string * list string)", items)
 	items = nil
 	for _, t := range readList(opaqueTypesTxt) {
 		items = append(items, coqStr(t))
